@@ -405,7 +405,11 @@ pub fn run_property(p: &dyn Property, tier: Tier, seed: u64) -> RunResult {
     let stop = Arc::new(AtomicBool::new(!failures.is_empty()));
     let results: Vec<(WorkerStats, Option<Failure>)> = std::thread::scope(|scope| {
         let mut handles = vec![];
+        let only: Option<usize> = std::env::var("VERIF_ONLY_WORKER").ok().and_then(|s| s.parse().ok());
         for w in 0..workers {
+            if only.map(|o| o != w).unwrap_or(false) {
+                continue;
+            }
             let known = &known;
             let watch = watch.clone();
             let stop = stop.clone();
@@ -438,8 +442,15 @@ pub fn run_property(p: &dyn Property, tier: Tier, seed: u64) -> RunResult {
                             *g = Some(s.clone());
                         }
                         watch.slots[w].store(watch.start.elapsed().as_millis() as u64 + 1, Ordering::Relaxed);
+                        let t0 = Instant::now();
                         let out = p.run(&s);
                         watch.slots[w].store(0, Ordering::Relaxed);
+                        if t0.elapsed().as_millis() > 3000 {
+                            // a slow case is worth looking at: keep it
+                            let f = Failure { streams: s.clone(), key: format!("slow-{}ms", t0.elapsed().as_millis()), msg: "slow case".into(), render: out.render_json() };
+                            let path = write_replay(id, watch.tier, watch.seed, &f);
+                            println!("note: a case took {} ms; written to {}", t0.elapsed().as_millis(), path.display());
+                        }
                         if !failed.get() {
                             account(&out, &mut stats.borrow_mut(), 2);
                         }
